@@ -152,6 +152,13 @@ def gen_trees(tpl, files, seed, tier):
                 trees.append(("%s=%s" % (os.path.basename(f), st), base({f: st}, bl=rng.choice(["custom", "absent", "intact"]))))
     for d in fdirs:
         trees.append(("missing-dir:" + d, base({}, missing_dirs=[d], bl=rng.choice(["custom", "absent"]))))
+    # a missing directory together with a damaged file that the walk reaches later (state carried from one into the other)
+    for d in fdirs:
+        for f in ffiles:
+            if f > d and not f.startswith(d + "/"):
+                for st in ("longer", "modified"):
+                    trees.append(("missing-dir:%s+%s=%s" % (os.path.basename(d), os.path.basename(f), st),
+                                  base({f: st}, missing_dirs=[d], bl=rng.choice(["custom", "absent"]))))
     trees.append(("only-root", {ROOT: "dir"}))
     trees.append(("only-user", {ROOT: "dir", ROOT + "/user": "dir", ROOT + "/user/keyboard/k.toml": b"k"}))
     n = 40 if tier == "quick" else 600
